@@ -82,7 +82,7 @@ def run(ctx):
                 for fn_ in fields:
                     v = fv.get(fn_)
                     if name == "place_order" and fn_ == "order_id":
-                        okv = okv and v is not None and any(x[0] == "call" and x[4] == "create_order" for x in walk(v)) and v[0] == "field" and v[1][0] == "downcast" and v[1][2] == "Continue"
+                        okv = okv and v is not None and any(x[0] == "call" and x[4] == "create_order" for x in walk(v)) and v[0] == "field" and v[1][0] == "downcast" and v[1][2] in ("Continue", "Ok")
                     else:
                         okv = okv and v is not None and v[0] == "param" and v[2] == fn_
             ctx.check(okv, "submit", "%s::%s|event" % (owner, name), pushes[0].loc(), "%s::%s queues Event::%s built from %s" % (owner, name, variant, ", ".join(fields)),
@@ -99,15 +99,20 @@ def step_rules(ctx, m, owner, s):
         return
     ctx.ok("queue", s.take.loc(), "%s empties self.%s with mem::take into a local batch" % (tag, s.queue_field))
     ctx.check(not s.take.guards and not q.cfg.in_loop(s.take.b), "queue", tag + "|take-once", s.take.loc(), "the queue is taken once, unconditionally")
+    if s.take.name == "replace":
+        rv = s.take.args[1] if len(s.take.args) > 1 else ("unk",)
+        empty = rv[0] == "call" and ((rv[4] == "new" and "Vec" in rv[1] and not rv[2]) or rv[4] == "default") or (rv[0] == "call" and rv[4] in ("with_capacity",) and "Vec" in rv[1])
+        ctx.check(empty, "queue", tag + "|replace-empty", s.take.loc(), "mem::replace leaves an empty queue behind", "mem::replace puts %s back into the queue" % render(rv))
     qw = [w for w in q.writes(field=s.queue_field) if w.root[0] == "param"]
     ctx.check(not qw, "queue", tag + "|no-refill", ctx.loc(f), "step does not write the queue field again (it stays empty)", "step writes the queue again: %s" % "; ".join(w.text() for w in qw))
     if s.loop_next is None:
         ctx.lost("loop", "%s has no loop iterating the taken batch" % tag)
         return
     chain = list(s.chain)
-    ctx.check(chain and chain[0] == "into_iter" and "enumerate" in chain and not [n for n in chain if n in ADAPTERS and n != "rev"]
-              and [n for n in chain if n not in ("into_iter", "iter", "rev")] == ["enumerate"], "loop", tag + "|adapters", s.loop_next.loc(),
-              "the loop iterates the whole taken batch: adapter chain %s" % list(reversed(chain)), "the loop's iterator chain is %s (only rev* then enumerate allowed)" % list(reversed(chain)))
+    enumerated = "enumerate" in chain
+    ctx.check(chain and chain[0] == "into_iter" and not [n for n in chain if n in ADAPTERS and n != "rev"]
+              and [n for n in chain if n not in ("into_iter", "iter", "rev")] == (["enumerate"] if enumerated else []), "loop", tag + "|adapters", s.loop_next.loc(),
+              "the loop iterates the whole taken batch: adapter chain %s" % list(reversed(chain)), "the loop's iterator chain is %s (only rev* then an optional enumerate allowed)" % list(reversed(chain)))
     loops_over_T = [c for c in q.calls("next") if q.cfg.in_loop(c.b) and (s.iter_chain(c) or [None])[-1] == ("local", s.T)]
     ctx.check(len(loops_over_T) == 1, "loop", tag + "|single", ctx.loc(f), "exactly one loop consumes the batch")
     # start time
@@ -120,8 +125,12 @@ def step_rules(ctx, m, owner, s):
     ctx.check(not first_set, "clock", tag + "|start-before-writes", ctx.loc(f), "no clock write precedes the start-time read")
     in_loop = [c for c in s.set_times if c.b in s.body]
     after = [c for c in s.set_times if c.b not in s.body]
-    idx = s.item("0")
-    item = s.item("1")
+    if enumerated:
+        idx = s.item("0")
+        item = s.item("1")
+    else:
+        idx = None        # position = an explicit counter (0 before the loop, += 1 once per iteration, read before the increment)
+        item = s.item()
 
     def is_sum(e, other_pred):
         b = c02.bin_of(e)
@@ -130,18 +139,22 @@ def step_rules(ctx, m, owner, s):
         return (b[1] == start and other_pred(b[2])) or (b[2] == start and other_pred(b[1]))
 
     def is_idx(e):
+        if idx is None:
+            from .stepmodel import loop_counter
+            return loop_counter(q, s.head, e) is not None
         while e[0] in ("conv", "cast"):
             e = e[1] if e[0] == "conv" else e[2]
         return same(e, idx)
     ok = len(in_loop) == 1 and is_sum(in_loop[0].args[1], is_idx)
-    ctx.check(ok, "clock", tag + "|intra-step", in_loop[0].loc() if in_loop else ctx.loc(f), "each processed instruction gets time start + its enumerate index",
+    ctx.check(ok, "clock", tag + "|intra-step", in_loop[0].loc() if in_loop else ctx.loc(f), "each processed instruction gets time start + its position in the processing order (%s)" % ("enumerate index" if enumerated else "explicit per-iteration counter"),
               "intra-step clock writes: %s" % "; ".join(c.text() for c in in_loop))
     pe = [c for c in s.process if c.b in s.body]
     ok = len(pe) == 1 and len(s.process) == 1 and same(pe[0].args[1], item)
     ctx.check(ok, "apply", tag + "|once", pe[0].loc() if pe else ctx.loc(f), "exactly one process_event per iteration, applied to the loop item",
               "process_event calls: %s" % "; ".join(c.text() for c in s.process))
     if len(in_loop) == 1 and len(pe) == 1:
-        only_some = lambda c: all(a[0] == "variant" and a[2] == ("Some",) for a in c.guards)  # noqa: E731
+        from .stepmodel import benign_batch_guard
+        only_some = lambda c: all((a[0] == "variant" and a[2] == ("Some",)) or benign_batch_guard(a, s.T) for a in c.guards)  # noqa: E731
         ctx.check(only_some(in_loop[0]) and only_some(pe[0]) and q.body.dominates(in_loop[0].b, pe[0].b), "apply", tag + "|every-item", pe[0].loc(),
                   "clock write and process_event run for every item (no other condition), clock first",
                   "per-item processing is conditional: set_time [%s], process_event [%s]" % (in_loop[0].gtext(), pe[0].gtext()))
